@@ -2,6 +2,7 @@
 include!(concat!(env!("OUT_DIR"), "/repo_mods.rs"));
 mod enc;
 mod rules;
+mod misc;
 
 use serde_json::{json, Value};
 use std::collections::HashMap;
@@ -73,6 +74,26 @@ fn main() {
             let r = &spec["replay"];
             let texts: Vec<String> = r["texts"].as_array().map(|v| v.iter().map(|x| x.as_str().unwrap().to_string()).collect()).unwrap_or_default();
             rules::walk(&t, &a.s("out", "."), r["fen"].as_str().unwrap(), &texts, r["capsfrom"].as_i64().unwrap_or(-1), a.n("text", 1) != 0)
+        }
+        "chk" => misc::chk_families(&t, &a.s("out", "."), a.n("shards", 16) as usize, a.n("seed", 1), a.n("stride", 8), a.n("randoms", 2000)),
+        "fen" => misc::fen_events(&t, &seeds(), &a.s("out", "."), a.n("shards", 16) as usize, a.n("seed", 1), a.n("playouts", 40) as usize, a.n("plies", 30) as usize, a.n("fuzz", 3) as usize, a.n("random-strings", 500) as usize),
+        "eval" => misc::eval_events(&t, &a.s("out", "."), a.n("shards", 16) as usize, a.n("seed", 1), a.n("randoms", 5000)),
+        "rechk" | "reeval" | "refen" => misc::replay_events(&t, &a.s("in", ""), &a.s("out", "")),
+        "position" => {
+            // one `position ...` command through play_out_position (replay of pos events)
+            let cmd = a.s("cmd", "position startpos");
+            let toks: Vec<String> = cmd.split(' ').map(|x| x.to_string()).collect();
+            let (fen, startpos, mi) = if toks.len() > 1 && toks[1] == "fen" {
+                (toks[2..8.min(toks.len())].join(" "), false, 8)
+            } else {
+                (board::DEFAULT_FEN_STRING.to_string(), true, 2)
+            };
+            let texts: Vec<String> = if toks.len() > mi && toks[mi] == "moves" { toks[mi + 1..].to_vec() } else { vec![] };
+            let ev = rules::position_event(&t, &fen, startpos, &texts);
+            let mut sh = rules::Shards::new(&a.s("out", "."), "rules", 1);
+            sh.emit(0, &ev);
+            sh.finish();
+            json!({"events": 1})
         }
         "audit" => {
             let (n, distinct, zeros) = t.audit();
